@@ -209,6 +209,17 @@ pub struct GenDesc {
     pub ops: [(u8, Vec<PartDesc>); 3],
 }
 
+/// triangles around one apex: rays to lattice points, consecutive rays span a sector; each sector belongs to A, B, C
+/// or nothing. Many edges meet in one vertex; no crossings anywhere (all operands use the same rays): exact.
+#[derive(Clone, Debug, PartialEq)]
+pub struct FanDesc {
+    pub apex: (i32, i32),
+    pub rays: Vec<(i8, i8)>,
+    /// per sector i (between sorted ray i and i+1): bit 0 = in A, bit 1 = in B, bit 2 = in C
+    pub sectors: Vec<u8>,
+    pub merge: [bool; 3],
+}
+
 #[derive(Clone, Debug, PartialEq)]
 pub struct SelfXDesc {
     pub rings: [Vec<(u16, u16)>; 2],
@@ -233,6 +244,7 @@ pub enum Shape {
     Pert(PertDesc),
     Gen(GenDesc),
     SelfX(SelfXDesc),
+    Fan(FanDesc),
     /// explicit operands (pinned regression inputs, replay files)
     Raw { a: MP, b: MP, c: MP, exact: bool, selfx: bool },
 }
@@ -500,6 +512,7 @@ impl CaseDesc {
             (Shape::Pert(_), _) => "pert",
             (Shape::Gen(_), _) => "gen",
             (Shape::SelfX(_), _) => "selfx",
+            (Shape::Fan(_), _) => "fan",
             (Shape::Raw { .. }, _) => "raw",
         }
     }
@@ -625,6 +638,54 @@ impl CaseDesc {
                 }
                 Ok(Case { family, a, b, c, exact: false, selfx: false, bits: self.bits })
             }
+            Shape::Fan(d) => {
+                // distinct directions, sorted by angle
+                let mut rays: Vec<(i64, i64)> = Vec::new();
+                for &(x, y) in &d.rays {
+                    let (x, y) = (x as i64, y as i64);
+                    if (x, y) == (0, 0) {
+                        continue;
+                    }
+                    if rays.iter().any(|&(u, v)| u * y - v * x == 0 && u * x + v * y > 0) {
+                        continue;
+                    }
+                    rays.push((x, y));
+                }
+                rays.sort_by(|a, b| (a.1 as f64).atan2(a.0 as f64).partial_cmp(&(b.1 as f64).atan2(b.0 as f64)).unwrap());
+                let apex = (d.apex.0 as i64, d.apex.1 as i64);
+                let n = rays.len();
+                let mut all: Vec<[IV; 3]> = Vec::new();
+                let mut per: [Vec<[IV; 3]>; 3] = [vec![], vec![], vec![]];
+                for i in 0..n {
+                    let (p, q) = (rays[i], rays[(i + 1) % n]);
+                    if n < 2 || p.0 * q.1 - p.1 * q.0 <= 0 {
+                        continue; // sector of 180 degrees or more
+                    }
+                    let t = [apex, (apex.0 + p.0, apex.1 + p.1), (apex.0 + q.0, apex.1 + q.1)];
+                    all.push(t);
+                    let code = d.sectors.get(i).cloned().unwrap_or(0);
+                    for k in 0..3 {
+                        if code >> k & 1 == 1 {
+                            per[k].push(t);
+                        }
+                    }
+                }
+                let map = |p: IV| amap(pt(p.0 as f64, p.1 as f64));
+                let mut out = Vec::new();
+                for k in 0..3 {
+                    if k == 2 && !want_c {
+                        out.push(empty());
+                        continue;
+                    }
+                    let mp = soup_to_mp(&per[k], d.merge[k], &map);
+                    validate_operand(&mp, &model_samples(&all, &per[k], &map)).map_err(Reject::Invalid)?;
+                    out.push(mp);
+                }
+                let c = out.pop().unwrap();
+                let b = out.pop().unwrap();
+                let a = out.pop().unwrap();
+                Ok(Case { family, a, b, c, exact: true, selfx: false, bits: self.bits })
+            }
             Shape::SelfX(d) => {
                 let ring = |v: &Vec<(u16, u16)>| -> MP {
                     let mut pts: Vec<P> = v.iter().map(|&(x, y)| pt(x as f64 * (GEN_SCALE / 65536.0), y as f64 * (GEN_SCALE / 65536.0))).collect();
@@ -730,6 +791,12 @@ pub mod strat {
     pub fn gen_shape() -> BoxedStrategy<Shape> {
         let operand = || (0u8..24, vec(part(), 1..=3));
         (operand(), operand(), operand()).prop_map(|(a, b, c)| Shape::Gen(GenDesc { ops: [a, b, c] })).boxed()
+    }
+
+    pub fn fan_shape() -> BoxedStrategy<Shape> {
+        ((-20i32..20, -20i32..20), vec((-6i8..=6, -6i8..=6), 3..14), vec(0u8..8, 14), any::<bool>(), any::<bool>(), any::<bool>())
+            .prop_map(|(apex, rays, sectors, m0, m1, m2)| Shape::Fan(FanDesc { apex, rays, sectors, merge: [m0, m1, m2] }))
+            .boxed()
     }
 
     pub fn selfx_shape() -> BoxedStrategy<Shape> {
